@@ -157,6 +157,7 @@ def run(ctx):
     for p in function_paths(gpa.node):
         if end_kind(p) == "raise":
             conds |= {U(s[1]) for s in p if s[0] == "cond" and s[2]}
+            conds |= {"not " + U(s[1]) for s in p if s[0] == "cond" and not s[2]}
     ctx.check("not axes_" in conds, "C09.b", "_get_projection_axes:empty", "no axis -> ValueError", "an empty axis list is not refused", gpa.where)
     ctx.check("len(axes_) != len(set(axes_))" in conds, "C09.b", "_get_projection_axes:duplicates", "duplicate axes -> ValueError",
               "duplicate axes are not refused", gpa.where)
